@@ -86,6 +86,18 @@ def exc_name(e):
     return type(e).__name__
 
 
+def fresh(x):
+    """A copy of an option string that is EQUAL to but not the same object as any interned literal or library constant
+    (option values reach a library from JSON, argparse, config files ... - never compare them by identity)."""
+    if isinstance(x, str):
+        return "".join(list(x)) if len(x) > 1 else x
+    if isinstance(x, tuple):
+        return tuple(fresh(v) for v in x)
+    if isinstance(x, list):
+        return [fresh(v) for v in x]
+    return x
+
+
 def cmp3(x, y):
     return (x > y) - (x < y)
 
